@@ -125,7 +125,7 @@ def funnel(ctx):
             r.check(not st, '%s stores nothing on the loader itself' % q, cg.funcs[q], construct=q, key='no-store',
                     msg='%s stores on the loader: %s' % (q, [src(s[0]) for s in st][:2]))
     # directory / zip member / plain file all delegate per file
-    fi = repo.func('bridgepoint.ooaofooa:ModelLoader.filename_input')
+    fi = repo.nfunc('bridgepoint.ooaofooa:ModelLoader.filename_input')      # normal form: guards canonical
     calls = [src(n.func) for n in ast.walk(fi) if isinstance(n, ast.Call) and src(n.func).startswith('xtuml.ModelLoader.')]
     r.check(sorted(set(calls)) == ['xtuml.ModelLoader.file_input', 'xtuml.ModelLoader.filename_input'] and len(calls) >= 3,
             'directory members, zip members and plain files are each fed to the base loader', fi,
@@ -152,10 +152,21 @@ def funnel(ctx):
                                 % src(c), c, construct='bridgepoint.ooaofooa:ModelLoader.filename_input', key='bare-listdir-name')
     else:
         raise AnalysisError('%s: directory traversal of filename_input not recognised' % loc(fi))
-    for pat, what in (("name.endswith('.xtuml')", 'directory members'), ("zipinfo.filename.endswith('.xtuml')", 'zip members')):
-        r.check(any(src(n.test) == pat for n in ast.walk(fi) if isinstance(n, ast.If)), '%s are selected by the .xtuml suffix only' % what, fi,
+    # in normal form a member filter is the guard `if not <member>.endswith('.xtuml'): continue` in the member loop
+    for what, is_member in (('directory members', lambda x: isinstance(x, ast.Name)),
+                            ('zip members', lambda x: isinstance(x, ast.Attribute) and x.attr == 'filename')):
+        found = False
+        other_filters = []
+        for lp_ in [n for n in ast.walk(fi) if isinstance(n, ast.For)]:
+            for n in lp_.body:
+                if isinstance(n, ast.If) and len(n.body) == 1 and isinstance(n.body[0], ast.Continue):
+                    m = pm.match("not _M.endswith('.xtuml')", n.test)
+                    if m and is_member(m['_M']) and any(isinstance(x, ast.Name) and x.id in [t.id for t in ast.walk(lp_.target) if isinstance(t, ast.Name)]
+                                                        for x in ast.walk(m['_M'])):
+                        found = True
+        r.check(found, '%s are selected by the .xtuml suffix only' % what, fi,
                 construct='bridgepoint.ooaofooa:ModelLoader.filename_input', key='suffix ' + what,
-                msg='%s are no longer selected by `%s`' % (what, pat))
+                msg='%s are no longer selected by `<member>.endswith(\'.xtuml\')`' % what)
 
 
 def keys(ctx, am):
